@@ -706,6 +706,10 @@ def random_walk(probe, caller, rng, nsteps, widx):
                 b = rng.randint(1, nb)
                 kind = rng.choice(["struct", "dstruct", "uref", "sarr", "darr", "darr", "d2arr"])
                 et = rng.choice(SC) if kind in NUMKINDS else "-"
+                if rng.random() < 0.35:
+                    # CPU buffers hand out storage byte by byte (alignment 1): after a small raw allocation the next object - and the data of
+                    # an array in it - starts at an address that is not a multiple of its item size
+                    w.buffer(b).allocate(rng.choice([1, 2, 3, 5, 12]))
                 r = w.create(b, kind, et, length=rng.randint(1, 6))
                 sync()                        # growth caused by the allocation comes BEFORE the object exists in the model
                 ev.append(["alloc", b, kind, et, r["off"], r["size"]])
